@@ -241,7 +241,7 @@ struct round_ctx {
   worker main_w;             // the main thread's sequential operations: pre-population, final snapshot
 };
 
-struct config { u64 threads_max{8}, ops_max{6}, hang_ms{20000}; } g_cfg;
+struct config { u64 threads_max{8}, ops_max{6}, hang_ms{60000}; } g_cfg;
 
 inline void cpu_relax() noexcept {
 #if defined(__x86_64__) || defined(__i386__)
@@ -673,9 +673,13 @@ std::atomic<u64> g_case{0};
   const int phase = rc.phase.load(std::memory_order_acquire);
   if (phase >= 2) for (const auto& w : rc.w) look(*w, false);
   look(rc.main_w, true);
-  rep().violation("C13", std::string("mutex_lin/hang/") + (stuck_kind >= 0 ? kNames[stuck_kind] : "unknown"),
-                  "no operation made progress for " + std::to_string(g_cfg.hang_ms) + " ms: a thread is blocked inside the index (lock left held by an earlier operation)",
-                  json::object().set("case", c).set("universe", phase >= 1 ? hex_keys(rc) : json("(hung during pre-population)")).set("threads", std::move(threads)));
+  // A wall-clock observation is never a verdict (a loaded machine can stall a round): the
+  // deterministic lock-leak monitor (non-TSan build) and ThreadSanitizer's double-lock report decide
+  // leaked locks; this backstop only keeps a hung worker from running into the driver's watchdog.
+  rep().inconclusive(std::string("mutex_lin: no operation made progress for ") + std::to_string(g_cfg.hang_ms) + " ms in round " + std::to_string(c) +
+                     " (operation in flight: " + (stuck_kind >= 0 ? kNames[stuck_kind] : "unknown") + "); threads: " + threads.dump().substr(0, 600));
+  (void)phase;
+  rep().set_resume(c + 1);
   rep().finish();
   std::fflush(nullptr);
   ::_exit(0);
@@ -749,7 +753,7 @@ int main(int argc, char** argv) {
   rep().init(a, "mutex_lin");
   g_cfg.threads_max = std::clamp<u64>(a.num("threads-max", 8), 2, 64);
   g_cfg.ops_max = std::clamp<u64>(a.num("ops-max", 6), 2, 1000);
-  g_cfg.hang_ms = std::max<u64>(a.num("hang-ms", 20000), 100);
+  g_cfg.hang_ms = std::max<u64>(a.num("hang-ms", 60000), 100);
   lm::active = lockmon_selftest();
 #if MLIN_TSAN
   rep().note("lock_monitor", "off: ThreadSanitizer build (TSan's own mutex checks apply)");
